@@ -716,8 +716,8 @@ func (h *c07Hist) randomOp(allowTamper bool) {
 	}
 }
 
-func (h *c07Hist) emit(n int) string {
-	return fmt.Sprintf("(((%d%%nat, [%s]),\n  [%s]),\n  [%s])", n, strings.Join(h.ops, "; "), strings.Join(h.outs, "; "), strings.Join(h.snaps, ";\n   "))
+func (h *c07Hist) emit(n, extraPatterns int) string {
+	return fmt.Sprintf("((((%d%%nat, %d%%nat), [%s]),\n  [%s]),\n  [%s])", n, extraPatterns, strings.Join(h.ops, "; "), strings.Join(h.outs, "; "), strings.Join(h.snaps, ";\n   "))
 }
 
 // ---------------------------------------------------------------- test
@@ -767,19 +767,24 @@ func TestVerif_C07(t *testing.T) {
 		h := &c07Hist{e: e, d: dirSrv, rng: rng, attacker: attacker, jwsID: map[string]int{}, dirPw: map[int]int{}, oldPw: map[int][]int{},
 			tampered: map[int]bool{}, acct: map[int]int{}, confirmedAt: map[string]int64{}, rejectedAt: map[string]int64{}, rejOutage: map[string]bool{},
 			confSeq: map[string]int{}, rejSeq: map[string]int{}}
+		extraPatterns := 1
 		if i%2 == 1 {
 			st.passwordChecker = paOne
+			extraPatterns = 0
 			h.human = append(h.human, "[one bind pattern]")
 		} else {
 			st.passwordChecker = pa
 		}
+		// carol's entry (password #3) lives under the second bind pattern
+		h.record("(SetHome 3%N 1%nat)", "None")
+		h.record("(ChangePw 3%N 3%N)", "None")
 		body(h)
 		e.setMode(c15Up)
 		if h.void {
 			voided++
 			return
 		}
-		cases = append(cases, h.emit(len(dirSrv.status)))
+		cases = append(cases, h.emit(len(dirSrv.status), extraPatterns))
 		idx = append(idx, strings.Join(h.human, " "))
 		if i < 3 {
 			res.sample(map[string]interface{}{"history": h.human})
